@@ -314,6 +314,7 @@ impl Database {
 
         db.ensure_catalog()?;
         db.ensure_system_tables()?;
+        db.restore_next_row_id()?;
 
         let recovery_info = RecoveryInfo {
             frames_recovered,
@@ -558,6 +559,67 @@ impl Database {
                 }
             }
         }
+    }
+
+    /// Row keys come from one in-memory counter that starts at 1. After reopening a
+    /// database it must continue above the largest row key any table already holds,
+    /// otherwise the next inserts collide with existing rows ("key already exists").
+    fn restore_next_row_id(&self) -> Result<()> {
+        use crate::btree::BTreeReader;
+        use crate::storage::TableFileHeader;
+        use std::sync::atomic::Ordering;
+
+        let tables: Vec<(String, String)> = {
+            let guard = self.shared.catalog.read();
+            match guard.as_ref() {
+                Some(catalog) => catalog
+                    .schemas()
+                    .iter()
+                    .flat_map(|(schema_name, schema)| {
+                        schema
+                            .tables()
+                            .keys()
+                            .map(move |table_name| (schema_name.to_string(), table_name.to_string()))
+                    })
+                    .collect(),
+                None => return Ok(()),
+            }
+        };
+
+        self.ensure_file_manager()?;
+        let mut file_manager_guard = self.shared.file_manager.write();
+        let Some(file_manager) = file_manager_guard.as_mut() else {
+            return Ok(());
+        };
+
+        let mut max_row_id = 0u64;
+        for (schema_name, table_name) in &tables {
+            let Ok(storage_arc) = file_manager.table_data(schema_name, table_name) else {
+                continue;
+            };
+            let storage = storage_arc.read();
+            let Ok(page) = storage.page(0) else { continue };
+            let Ok(header) = TableFileHeader::from_bytes(page) else {
+                continue;
+            };
+            let Ok(reader) = BTreeReader::new(&storage, header.root_page()) else {
+                continue;
+            };
+            if let Ok(cursor) = reader.cursor_last() {
+                if cursor.valid() {
+                    if let Ok(key) = cursor.key() {
+                        if let Ok(bytes) = <[u8; 8]>::try_from(key) {
+                            max_row_id = max_row_id.max(u64::from_be_bytes(bytes));
+                        }
+                    }
+                }
+            }
+        }
+
+        self.shared
+            .next_row_id
+            .fetch_max(max_row_id.saturating_add(1), Ordering::AcqRel);
+        Ok(())
     }
 
     pub fn ensure_wal(&self) -> Result<()> {
